@@ -10,8 +10,8 @@ CONSTANTS
  ShutTOs <- TOBoth
  PCancel = {1, 2}
  Gates = {FALSE, TRUE}
- DL1 <- DL24
- DL2s <- DLN3
+ DL1 <- DL2
+ DL2s <- DLN
  W2 <- WB
  LB2 <- LAB
  W3 <- WT
